@@ -1,0 +1,6 @@
+//go:build !verif
+
+package css
+
+// Verification hook (see verif_on.go); a no-op with the "verif" build tag off.
+func verifCount() {}
